@@ -166,7 +166,7 @@ def section_ints(t: T, ctx: Ctx):
             membership(t, tname, wrong, False, True)
         for b in (True, False):
             t.bool_as_int[f"{tname}:{b}"] = isinstance(b, getattr(P(), tname))
-    n = 300 if ctx.quick else 3000
+    n = 1500 if ctx.quick else 6000
 
     @hypothesis.seed(ctx.subseed("ints"))
     @settings(max_examples=n, database=None, deadline=None, phases=[Phase.generate], suppress_health_check=list(HealthCheck))
@@ -189,7 +189,7 @@ def section_floats(t: T, ctx: Ctx):
         membership(t, "f64", v, False, True)
     for wrong in (1, 0, True, "1.0", None, b"", 1 + 0j):
         membership(t, "f64", wrong, False, True)
-    n = 300 if ctx.quick else 3000
+    n = 1500 if ctx.quick else 6000
 
     @hypothesis.seed(ctx.subseed("floats"))
     @settings(max_examples=n, database=None, deadline=None, phases=[Phase.generate], suppress_health_check=list(HealthCheck))
@@ -228,7 +228,7 @@ def section_durations(t: T, ctx: Ctx):
                 roundtrip(t, kind, v, tol=500 * US)
         for wrong in (0, 1.0, "1", None, datetime.datetime(2020, 1, 1), datetime.date(2020, 1, 1)):
             membership(t, tname, wrong, False, True)
-        n = 300 if ctx.quick else 3000
+        n = 1500 if ctx.quick else 6000
         lo_us, hi_us = lo // US, hi // US
 
         @hypothesis.seed(ctx.subseed("td", tname))
@@ -286,7 +286,7 @@ def section_timestamps(t: T, ctx: Ctx):
             roundtrip(t, "nullable_datetime_i64", v)
     for wrong in (0, 0.0, "2024-01-01", None, datetime.date(2024, 1, 1), datetime.timedelta(0)):
         membership(t, "TZAware", wrong, False, True)
-    n = 300 if ctx.quick else 3000
+    n = 1500 if ctx.quick else 6000
 
     @hypothesis.seed(ctx.subseed("ts"))
     @settings(max_examples=n, database=None, deadline=None, phases=[Phase.generate], suppress_health_check=list(HealthCheck))
